@@ -22,12 +22,26 @@ func (c11) ID() string { return "C11" }
 // default fields that never occur in the generated queries
 var c11Fields = []string{"df", "my field", "ünï", `f"q`, strings.Repeat("z", 70), "AND", "5"}
 
-func (c11) Batches(tier string, seed int64) int { return newSeqPlan(tier, 8, 200).total() + 1 }
+func (c11) Batches(tier string, seed int64) int { return newSeqPlan(tier, 8, 200).total() + 2 }
 
 func (c11) RunBatch(ctx *core.Ctx, batch int) {
 	mon.Install()
 	defer monFlush(ctx)
 	plan := newSeqPlan(ctx.Tier, 8, 200)
+	if batch == plan.total()+1 {
+		// long queries: the option must not change acceptance at any size
+		sizes := []int{100, 513, 600, 1024, 1500}
+		if ctx.Thorough() {
+			sizes = append(sizes, 3000, 5000)
+		}
+		for _, fam := range gen.Families {
+			for _, n := range sizes {
+				in := fam.Make(n)
+				ctx.Case(fmt.Sprintf("family %s n=%d", fam.Name, n), func() { c11Check(ctx, "long", in, "dfl") })
+			}
+		}
+		return
+	}
 	if batch == plan.total() {
 		// full leaf alphabet under every operator, every default field
 		sp := qt.NewSpace(qt.FullLeaves())
